@@ -25,7 +25,8 @@ def _inputs(pairs, passes_list) -> List[dict]:
     runs = []
     for passes in passes_list:
         for a, b in pairs:
-            runs.append({"passes": passes, "ar": {"A0": [a + OFF], "A1": [b + OFF]}})
+            # later reads of the same channel see a changing signal
+            runs.append({"passes": passes, "ar": {"A0": [a + OFF, a + OFF + 3, max(0, a + OFF - 4), a + OFF + 1], "A1": [b + OFF]}})
     return runs
 
 
@@ -196,8 +197,12 @@ S_TEMPLATES: List[List[str]] = [
     ["z = max(x, y)"],
     ["z = min(x, y, z)"],
     ["x = abs(y)"],
+    ["pin_mode(7, OUTPUT)", "digital_write(7, x > y)"],
+    ["analog_write(6, abs(x) % 200)"],
+    ["digital_write(8, HIGH)", "mon.write(digital_read(8))", "digital_write(8, LOW)"],
+    ['a = analog_read("A0") - 10', "x = x + a"],
 ]
-S_CORE = [0, 1, 4, 6, 8, 10, 12, 14, 18, 21, 25, 29, 31, 32, 35]
+S_CORE = [0, 1, 4, 6, 8, 10, 12, 14, 18, 21, 25, 29, 31, 32, 35, 39, 42]
 
 
 def _seqs(n_symbols: Sequence[int], k: int) -> Iterator[tuple]:
@@ -258,7 +263,10 @@ K_LEAVES = [
     ["continue"],
     ["pass"],
     ["x += 2", "mon.write(x)"],
+    ["n = n - 1", "mon.write(n)"],      # the limit of an enclosing `for i in range(n)` changes inside the body
+    ["n += 1"],
 ]
+K_LOOPVAR = [["i{d} += 1", "mon.write(i{d})"], ["i{d} = 7"], ["if i{d} == 1:", "    i{d} = 5", "mon.write(i{d})"]]
 
 
 def _k_blocks(depth: int, in_loop: bool, tier: str) -> Iterator[List[str]]:
@@ -283,6 +291,15 @@ def _k_blocks(depth: int, in_loop: bool, tier: str) -> Iterator[List[str]]:
             yield ["if x < y:"] + common.indent(body) + ["else:"] + common.indent(other)
     for body in inner_nl[: (4 if tier != "thorough" else 8)]:
         yield ["if x < y:"] + common.indent(body) + ["elif x == y:"] + common.indent(["mon.write(8)"]) + ["else:"] + common.indent(["x -= 1"])
+    # every block as a non-first arm (an arm that emits no code must still guard the arms after it)
+    for body in inner_nl[: (8 if tier != "thorough" else 24)]:
+        yield ["if x < y:", "    mon.write(7)", "elif x == y:"] + common.indent(body) + ["else:", "    x -= 1"]
+        yield ["if x < y:", "    mon.write(7)", "elif x == y:"] + common.indent(body) + ["elif x > 5:", "    mon.write(9)", "else:", "    x -= 1"]
+        yield ["if x < y:"] + common.indent(body) + ["elif x == y:", "    pass", "elif x > 5:"] + common.indent(body) + ["else:", "    mon.write(6)"]
+    for tmpl in K_LOOPVAR:
+        lv = [ln.replace("{d}", str(depth)) for ln in tmpl]
+        yield [f"for i{depth} in range(3):"] + common.indent(lv + [f"mon.write(i{depth})"])
+        yield [f"for i{depth} in range(n):"] + common.indent(["x += 1"] + lv)
     for body in inner_l:
         yield [f"for i{depth} in range(3):"] + common.indent(body + [f"mon.write(i{depth})"])
         yield [f"for i{depth} in range(n):"] + common.indent(body)
@@ -319,6 +336,10 @@ F_DEFS = {
     "cnt": ["def cnt():", "    return 4"],
     "early": ["def early(v):", "    if v < 0:", "        return 0", "    mon.write(v)", "    return v * 2"],
     "bump": ["def bump():", "    global x", "    x = x + 1"],
+    "noisy": ["def noisy(v):", "    mon.write(v)", "    return v + 1"],
+    "bump2": ["def bump2():", "    global x, y", "    x = x + 1", "    y = y + 2"],
+    "bump3": ["def bump3(v):", "    global y, x", "    x = v", "    y = v + 1", "    return x + y"],
+    "bump4": ["def bump4():", "    global x", "    global y", "    y = x", "    x = 0"],
     "skip": ["def skip(v):", "    t = 0", "    for i in range(4):", "        if i == v:", "            continue", "        t = t + i", "    return t"],
 }
 F_CALLS = [
@@ -342,6 +363,19 @@ F_CALLS = [
     (["inc"], ["mon.write(max(inc(a), b))"]),
     (["inc", "add"], ["if inc(a) > b:", "    x = add(a, b)"]),
     (["bump"], ["bump()", "bump()"]),
+    (["noisy"], ["mon.write(max(noisy(a), 3))"]),
+    (["noisy"], ["x = min(noisy(b), noisy(a))"]),
+    (["noisy"], ["y = abs(noisy(a)) + max(noisy(b), noisy(a), 2)"]),
+    (["noisy"], ["if noisy(a) > noisy(b):", "    x = 0"]),
+    (["noisy"], ["x = noisy(a) if noisy(b) > 0 else noisy(0)"]),
+    (["noisy"], ["mon.write(noisy(a) + noisy(b) * noisy(2))"]),
+    (["noisy"], ["for i in range(noisy(1)):", "    x += 1"]),
+    (["noisy"], ["k = 0", "while k < noisy(1):", "    k += 1"]),
+    (["noisy"], ["sleep(noisy(3))"]),
+    (["noisy", "add"], ["x = add(noisy(a), noisy(b))"]),
+    (["bump2"], ["bump2()", "mon.write(x)", "bump2()"]),
+    (["bump3"], ["mon.write(bump3(a))"]),
+    (["bump4", "bump2"], ["bump4()", "bump2()"]),
     (["skip"], ["x = skip(abs(a) % 4)"]),
     (["skip", "inc"], ["mon.write(skip(inc(0)))"]),
 ]
@@ -408,7 +442,34 @@ def gen_L(tier: str) -> Iterator[dict]:
                     yield {"id": f"L:{li}:{seq}:loopread", "space": "L", "src": common.script(init + linit, reads + ["mon.write(x)"]), "runs": _inputs(pairs[:1], [2])}
 
 
-SPACES = {"E": gen_E, "S": gen_S, "K": gen_K, "F": gen_F, "L": gen_L}
+L_MUT = [["L.append(7)"], ["L.append(x)"], ["L.remove(2)"], ["L.append(7)", "L.append(8)"]]
+L_READ = [["mon.write(len(L))"], ["mon.write(L[-1])"], ["y = len(L) + L[0]"], ["for i in range(len(L)):", "    mon.write(L[i])"]]
+
+
+def gen_LB(tier: str) -> Iterator[dict]:
+    """Lists mutated in one arm / loop body and read in a sibling arm, after the construct and in the next pass."""
+    pairs = AB_SMALL[:4]
+    init = INIT_AB + ["x = a", "y = b"]
+    obs = ["mon.write(x)", "mon.write(y)"] + L_DUMP
+    for li, (linit, _literal) in enumerate(L_INITS):
+        for (mi, m), (ri, r) in itertools.product(enumerate(L_MUT), enumerate(L_READ)):
+            shapes = {
+                "sibling": ["if x > y:"] + common.indent(m) + ["elif x == y:"] + common.indent(r) + ["else:"] + common.indent(r),
+                "sibling_rev": ["if x > y:"] + common.indent(r) + ["elif x == y:"] + common.indent(r) + ["else:"] + common.indent(m),
+                "after_if": ["if x > y:"] + common.indent(m) + r,
+                "after_for": ["for i in range(abs(x) % 3):"] + common.indent(m) + r,
+                "try": ["try:"] + common.indent(m) + ["except:"] + common.indent(r) + r,
+                "nested": ["for j in range(2):", "    if j == 1:"] + common.indent(m, 2) + ["    else:"] + common.indent(r, 2),
+            }
+            for sname, body in shapes.items():
+                if sname == "try" and any("remove" in ln for ln in m):
+                    continue  # an exception raised and caught at run time is outside the subset of C01 (the firmware has none)
+                yield {"id": f"LB:{li}:{mi}:{ri}:{sname}:setup", "space": "LB", "src": common.script(init + linit + body + obs), "runs": _inputs(pairs, [0])}
+                if li in (0, 4) or tier == "thorough":
+                    yield {"id": f"LB:{li}:{mi}:{ri}:{sname}:loop", "space": "LB", "src": common.script(init + linit, body + ["mon.write(len(L))"]), "runs": _inputs(pairs[:2], [2])}
+
+
+SPACES = {"E": gen_E, "S": gen_S, "K": gen_K, "F": gen_F, "L": gen_L, "LB": gen_LB}
 
 
 def judge(case, tr, dev_runs, host_runs):
